@@ -26,13 +26,28 @@ import (
 	"math/big"
 	"net/http"
 	"net/url"
+	"os"
 	"regexp"
 	"sort"
+	"strconv"
 	"strings"
 	"time"
 
 	"github.com/fxamacker/cbor/v2"
 )
+
+// ---------------------------------------------------------------- time budget of an escalated run
+// The driver's escalated search (a broken obligation, no canary yet) re-runs the check with the thorough volume
+// under a wall-clock limit: VERIF_C18_BUDGET_S bounds the generator (route loops stop starting new routes, the
+// focus stage runs first), so that the run ends with a verdict instead of being killed.
+var c18Start = time.Now()
+
+func c18Budgeted() bool { return os.Getenv("VERIF_C18_BUDGET_S") != "" }
+
+func c18Expired() bool {
+	n, err := strconv.Atoi(os.Getenv("VERIF_C18_BUDGET_S"))
+	return err == nil && n > 0 && time.Since(c18Start) > time.Duration(n)*time.Second
+}
 
 // ---------------------------------------------------------------- wrappers
 
@@ -370,6 +385,10 @@ func c18StoredStage(env *verifEnv, res *verifResult, routes []verifRoute, everyw
 	showing := map[string]bool{}
 	for ui, u := range users {
 		if len(u.fields) == 0 {
+			continue
+		}
+		if c18Expired() {
+			res.bump("budget_skipped:stored-users")
 			continue
 		}
 		for _, v := range viewers(u) {
